@@ -14,7 +14,7 @@ pub struct Case {
 }
 
 const ESC: [&str; 14] = ["<", ">", "&", "\"", "'", ";", "#", "a", "l", "t", "m", "p", " ", "é"];
-const URL: [&str; 9] = ["%", "+", "2", "F", "f", " ", "/", "é", "😀"];
+const URL: [&str; 11] = ["%", "+", "2", "F", "f", " ", "/", "é", "😀", "\u{fffd}", "\u{7f}"];
 const DEC: [&str; 10] = ["%", "C", "3", "A", "9", "8", "0", "F", "+", "a"];
 const HTML: [&str; 12] = ["<", ">", "!", "-", "/", "s", "c", "r", "i", "p", "t", "a"];
 // 39 digits etc. appear through "#", "3"? -> the entity &#39; needs '3' and '9'
@@ -220,6 +220,24 @@ pub fn oracle(c: &Case, obs: &mut Obs) -> Check {
             }
             Ok(())
         }
+        "literal" => {
+            // s is the literal including its quotes
+            let content = &s[1..s.len() - 1];
+            let run = |src: String| lq::with_parser(Conf::Stdlib, |p| lq::run(p, &src, &liquid::Object::new()));
+            let esc = run(format!("{{{{ {s} | escape }}}}"));
+            let back = match &esc {
+                Ok(Ok(e)) if safe(e) => e.replace("&lt;", "<").replace("&gt;", ">").replace("&quot;", "\"").replace("&#39;", "'").replace("&amp;", "&"),
+                other => return Err(Failure::new("escape: a literal input is not escaped", format!("literal={s} got={}", lq::show(other)))),
+            };
+            if back != content {
+                return Err(Failure::new("escape: replacing the entities back does not yield the literal's content", format!("literal={s} escaped={} back={back:?}", lq::show(&esc))));
+            }
+            let rt = run(format!("{{{{ {s} | url_encode | url_decode }}}}"));
+            if !matches!(&rt, Ok(Ok(r)) if r == content) {
+                return Err(Failure::new("url: url_decode does not invert url_encode for a literal input", format!("literal={s} got={}", lq::show(&rt))));
+            }
+            Ok(())
+        }
         "url" => {
             let o = get_str("url_encode", s)?;
             let mut it = o.chars().peekable();
@@ -284,6 +302,16 @@ pub fn run(ctx: &Ctx) {
     }
     let (n, f) = space("escape_array", &ESC, 3);
     ctx.exhaustive("escape_array_input", n, f, oracle);
+    // inputs written as template literals whose content begins / ends with the other quote character
+    {
+        let mut v = Vec::new();
+        for (q, o) in [('\'', '"'), ('"', '\'')] {
+            for c in [format!("{o}"), format!("{o}{o}"), format!("{o}a"), format!("a{o}"), format!("{o}a{o}"), format!("onclick={o}go(){o}"), format!("{o}<&>{o}"), format!("{o} %2F+{o}")] {
+                v.push(Case { check: "literal".into(), s: format!("{q}{c}{q}") });
+            }
+        }
+        ctx.cases("literal_inputs", v, oracle);
+    }
     let (n, f) = space("url", &URL, u);
     ctx.exhaustive("url_roundtrip", n, f, oracle);
     let (n, f) = space("url_decode", &DEC, d);
